@@ -224,11 +224,16 @@ def run(rep, tier):
         rep.call(views.rows_bounded, rep, prog, "C05.rows-bounded")
         rep.call(row_coverage.group_tail, rep, prog, "C05.kernel-rows")
         rep.call(row_coverage.tail_complete, rep, prog, "C05.tail-complete")
+        rep.call(row_coverage.zip_store, rep, prog, "C05.store-every-pixel")
         rep.call(index_rules.cropped_row_slices, rep, prog, "C05.view-rect")
         from . import c12
         rep.call(c12.skip_arm, rep, prog, "C05.fallible-write")
         from . import c13
         rep.call(c13.step_count, rep, prog, "C05.step-count")
+        # bands of source and destination are paired by position: if two splitters distribute
+        # the surplus rows differently, the zip of their rows stops early and rows stay unwritten
+        from . import c14
+        rep.call(c14.sizes, rep, prog, "C05.band-sizes", siblings=True)
         rep.call(storewidth.check, rep, prog, "C05.storewidth", storewidth.FLOOR.get(cfg, 40))
         if cfg.startswith("x86"):
             rep.call(loadwidth.chunk_store, rep, prog, "C05.chunk-store")
